@@ -70,14 +70,15 @@ def chainFit (steps : List Step) : Rows → Except Err Predictor := fun r => do
   let (_, ps) ← chainThread steps r
   pure (sumPredictors ps)
 
-/-- `Vector.fit` / `predict`: component `i` is fitted to `data[i]` with `weights[i]` only. -/
+/-- `Vector.fit` / `predict`: component `i` is fitted to `data[i]` with `weights[i]` only (the three sequences are walked together, as the
+    code's `zip(self.components, data, weights)` does; `check_fit_input` has turned a missing `weights` into one `None` per component). -/
 def vectorFit (comps : List (Rows → Except Err Predictor)) : Rows → Except Err Predictor := fun r => do
   if r.data.length < 2 then Except.error Err.valueError
   if (match r.weights with | some ws => ws.length != r.data.length | none => false) then Except.error Err.valueError
-  let fitted ← (List.range (min comps.length r.data.length)).mapM fun i =>
-    match comps[i]? with
-    | some c => c ⟨r.coords, [r.data.getD i []], r.weights.map fun ws => [ws.getD i []]⟩
-    | none => Except.error Err.other
+  let ws' : List (Option (List Rat)) := match r.weights with
+    | some ws => ws.map some
+    | none => r.data.map fun _ => none
+  let fitted ← (comps.zip (r.data.zip ws')).mapM fun x => x.1 ⟨r.coords, [x.2.1], x.2.2.map fun w => [w]⟩
   pure fun q => do
     let parts ← fitted.mapM fun p => p q
     pure (parts.map fun d => d.getD 0 [])
